@@ -3,7 +3,7 @@ CONF = {
     'interesting': ['truncated-prefix-of-valid', 'record-length-extreme', 'handshake-type-length', 'clienthello-length-extreme',
                     'sni-length-extreme', 'extension-length-extreme', 'consistent-length-cut', 'field-extreme', 'large-record',
                     'multi-record', 'clienthello', 'sni', 'extensions', 'clienthello-beyond-record', 'encrypted-handshake', 'encrypted-alert',
-                    'error-after-add', 'residue-after-error', 'dirty-buffer', 'no-fixlengths', 'odd-payload', 'roundtrip', 'out-of-domain',
+                    'capacity-dependent', 'error-after-add', 'residue-after-error', 'dirty-buffer', 'no-fixlengths', 'odd-payload', 'roundtrip', 'out-of-domain',
                     'decode-error', 'malformed', 'seed'],
     'rule': 'Records built field by field by the harness (ChangeCipherSpec, plain and encrypted Alert, ApplicationData, Handshake: ClientHello with '
             'session id / cipher suites / compression methods / extensions incl. server_name, other plaintext types, encrypted), sequences of 1..5 records; '
@@ -15,7 +15,8 @@ CONF = {
             'cuts: the ClientHello ends exactly at every internal field boundary and at every offset of the extensions block with extensions length, '
             '24-bit length and record length rewritten to agree, alone and followed by another record (the ClientHello parser reads on into it); '
             'field-built layers (new:/rtn:), 1400-octet records, TLS streams of layers/*_test.go, a malformed stream; decoded into fresh and reused '
-            'objects, serialized under all option/buffer combinations, round-tripped.',
+            'objects, serialized under all option/buffer combinations, round-tripped.  Every dec: input is also decoded as a slice of a larger zero-filled array '
+            '(cap > len) and compared with the cap = len result (oracle C05:beyond-slice; known finding for the ClientHello parser).',
     'assumptions': ['Go slice/copy/append/make semantics as modelled (slices checked against len, stricter than cap)',
                     'the input slice has cap = len: ClientHello.decodeFromBytes re-slices its argument to its capacity (tls_handshake.go:110) and so reads from the record body '
                     'to the end of the backing array; the harness allocates every input with make(len) (a repository test pins the reading beyond the record)',
